@@ -57,6 +57,10 @@ func (e *Engine) planValue(x *Exec, t *Term, ty types.Type, depth int, nElems in
 	if depth > 3 {
 		return &valuePlan{kind: "skip"}
 	}
+	if _, isFn := ty.Underlying().(*types.Signature); isFn {
+		// a callback parameter: replayed as a function that does nothing and returns zero values
+		return &valuePlan{kind: "func"}
+	}
 	switch u := ty.Underlying().(type) {
 	case *types.Basic:
 		switch {
@@ -393,6 +397,9 @@ func (mr *modelReader) read(p *valuePlan) (*govcrt.JVal, string) {
 		}
 		return &govcrt.JVal{Stub: st}, ""
 	}
+	if p.kind == "func" {
+		return &govcrt.JVal{Func: true}, ""
+	}
 	return nil, "value kind " + p.kind + " is not replayed"
 }
 
@@ -461,11 +468,20 @@ func (e *Engine) tryReplay(vc *VC, o *Obligation, fres *FuncResult, repo string,
 			}
 		}
 	}
+	shortCount := map[string]int{}
+	for tn := range e.Types {
+		shortCount[tn[strings.LastIndex(tn, ".")+1:]]++
+	}
 	for _, tn := range sortedKeys(e.Types) {
 		ts := e.Types[tn]
 		short := tn
 		if k := strings.LastIndex(short, "."); k >= 0 {
 			short = short[k+1:]
+		}
+		// the replay runtime matches type specs by short type name: where two packages use the same
+		// name (Reader, Writer) only the one of the function's own package is passed on
+		if shortCount[short] > 1 && !(rf.Package != "" && strings.HasPrefix(tn, rf.Package+".")) {
+			continue
 		}
 		for _, v := range ts.Views {
 			rf.Views = append(rf.Views, govcrt.ViewJ{Type: short, Fn: v.Fn, Params: v.Params, Body: v.Body.Text})
